@@ -14,6 +14,8 @@ import Mahotas.Proofs.C18BSplineW
 import Mahotas.Proofs.C18Interp
 import Mahotas.Proofs.C18Resize
 import Mahotas.Proofs.C18Interp45
+import Mahotas.Proofs.C18Border
+import Mahotas.Proofs.C18Shape
 import Mathlib.Data.Rat.Floor
 import Mahotas.Proofs.Modes
 
@@ -925,3 +927,297 @@ theorem C18_interpolation_property_order4_5_short_lines {K : Type} [Field K] [Li
 example : lineFilterL (2 : ℚ) [1 / 2, 1 / 3] (fun _ _ s => s 0) 2 (fun k => ((k + 1 : Nat) : ℚ)) 0 = 7 / 4 ∧
     lineFilterL (2 : ℚ) [1 / 2, 1 / 3] (fun _ _ s => s 0) 1 (fun k => ((k + 1 : Nat) : ℚ)) 0 = 1 := by
   constructor <;> norm_num [lineFilterL, onePole, anticausalRev, causal]
+
+/-- **C18 (integer coordinates anywhere: the border rule, orders 2 and 3, any rank).** Extension of
+`C18_interpolation_property` to sources **outside** the array. Same hypotheses on the coefficients (separable one-pole
+prefilter of `f`, exact pole, `MirrorInit` initial values, axes ≥ 2). At **every** output position whose mapped
+coordinates are an integer vector `js` — anywhere, e.g. an integer shift larger than the array — the whole
+`zoom_shift` model (`mapCoord`: `std_like_round` + `fix_offset` for coordinates outside `[0, len−1]`, then start knot,
+weights, mirror-folded knots, tensor sum) returns `f` at the position the **mathematical border rule** of the mode
+(`specPos`: `borderSpec` coordinate-wise — clamp / modulo / reflect / mirror, `Model/Border.lean`) assigns to `js`,
+and `cval` when the mode flags an axis (`constant`, `ignore`): an integer shift is an exact translation with the border
+rule filling vacated pixels, for every mode, rank and both orders. -/
+theorem C18_interpolation_property_border {K : Type} [Field K] [LinearOrder K] [IsStrictOrderedRing K]
+    {fl : K → Int} (h : IsFloor fl) (m : Mode) (cval : K) (order : Nat) (lam z : K)
+    (hord : (order = 2 ∧ lam = 6) ∨ (order = 3 ∧ lam = 4))
+    (hz : z * z + lam * z + 1 = 0) (hz1 : z * z - 1 ≠ 0)
+    (ini : Nat → (Nat → K) → K) (im : Img K) (hshape : ∀ len ∈ im.shape, 2 ≤ len)
+    (hini : ∀ len ∈ im.shape, ∀ s : Nat → K, MirrorInit z len s (ini len s))
+    (f : List Int → K)
+    (hdata : ∀ pos, inside im.shape pos = true →
+      im.getD pos 0 = prefilterNd (lineFilter1 z (2 + lam) ini) im.shape f pos)
+    (shifts zooms : List (Option K)) (p js : List Int) (hl : js.length = im.shape.length)
+    (hc : coordsOf im.shape p shifts zooms = js.map fun (j : Int) => (j : K)) :
+    pixel fl order m cval im shifts zooms p
+      = match specPos m im.shape js with
+        | some js' => f js'
+        | none => cval := by
+  have hpos : ∀ len ∈ im.shape, 0 < len := fun len hl' => by have := hshape len hl'; omega
+  apply pixel_border_of_core h order m cval im shifts zooms p js hpos hl hc f
+  intro js' hin
+  rw [nestedSum_inside fl order im js' hpos hin _ hdata]
+  apply nested_prefilter fl order _ im.shape js' f _ hin
+  intro len hlen s j h0 h1
+  rcases hord with ⟨rfl, rfl⟩ | ⟨rfl, rfl⟩
+  · rw [axisComb2 h]
+    have := line_inverts z 6 hz hz1 (by norm_num) ini len (hshape len hlen) (hini len hlen) s j h0 h1
+    have e : edgeFold len j = j := edgeFold_inside len j h0 h1
+    rw [e] at this ⊢
+    linear_combination this
+  · rw [axisComb3 h]
+    have := line_inverts z 4 hz hz1 (by norm_num) ini len (hshape len hlen) (hini len hlen) s j h0 h1
+    have e : edgeFold len j = j := edgeFold_inside len j h0 h1
+    rw [e] at this ⊢
+    linear_combination this
+
+/-- **C18 (integer coordinates anywhere, orders 4 and 5).** The two-pole instance of
+`C18_interpolation_property_border` (hypotheses of `C18_interpolation_property_order4_5`): at any integer coordinate
+vector `js` the model returns `f` at the position the border rule assigns to `js`, or `cval`. -/
+theorem C18_interpolation_property_border_order4_5 {K : Type} [Field K] [LinearOrder K] [IsStrictOrderedRing K]
+    {fl : K → Int} (h : IsFloor fl) (m : Mode) (cval : K) (order : Nat) (z1 z2 l1 l2 w : K)
+    (hord : (order = 4 ∧ l1 + l2 = 76 ∧ l1 * l2 = 228 ∧ w = 384) ∨
+      (order = 5 ∧ l1 + l2 = 26 ∧ l1 * l2 = 64 ∧ w = 120))
+    (h1 : z1 * z1 + l1 * z1 + 1 = 0) (h2 : z2 * z2 + l2 * z2 + 1 = 0)
+    (hz1 : z1 * z1 - 1 ≠ 0) (hz2 : z2 * z2 - 1 ≠ 0)
+    (ini : K → Nat → (Nat → K) → K) (im : Img K) (hshape : ∀ len ∈ im.shape, 4 ≤ len)
+    (hini : ∀ len ∈ im.shape, ∀ z, z = z1 ∨ z = z2 → ∀ s : Nat → K, MirrorInit z len s (ini z len s))
+    (f : List Int → K)
+    (hdata : ∀ pos, inside im.shape pos = true →
+      im.getD pos 0 = prefilterNd (lineFilterL w [z1, z2] ini) im.shape f pos)
+    (shifts zooms : List (Option K)) (p js : List Int) (hl : js.length = im.shape.length)
+    (hc : coordsOf im.shape p shifts zooms = js.map fun (j : Int) => (j : K)) :
+    pixel fl order m cval im shifts zooms p
+      = match specPos m im.shape js with
+        | some js' => f js'
+        | none => cval := by
+  have hpos : ∀ len ∈ im.shape, 0 < len := fun len hl' => by have := hshape len hl'; omega
+  apply pixel_border_of_core h order m cval im shifts zooms p js hpos hl hc f
+  intro js' hin
+  rw [nestedSum_inside fl order im js' hpos hin _ hdata]
+  apply nested_prefilter fl order _ im.shape js' f _ hin
+  intro len hlen s j h0 hj
+  rcases hord with ⟨rfl, hs, hp, rfl⟩ | ⟨rfl, hs, hp, rfl⟩
+  · rw [axisComb4 h]
+    have := line_inverts2 z1 z2 l1 l2 384 h1 h2 hz1 hz2 (by norm_num) ini len (hshape len hlen) (hini len hlen)
+      s j h0 hj
+    simp only [hs, hp] at this
+    linear_combination (1 / 384 : K) * this
+  · rw [axisComb5 h]
+    have := line_inverts2 z1 z2 l1 l2 120 h1 h2 hz1 hz2 (by norm_num) ini len (hshape len hlen) (hini len hlen)
+      s j h0 hj
+    simp only [hs, hp] at this
+    linear_combination (1 / 120 : K) * this
+
+/-- **C18 (order 1 at integer coordinates anywhere, shift or zoom, any rank).** Without any prefilter: at every output
+position whose mapped coordinates are an integer vector `js` (an integer shift, a unit zoom, the corners of a zoom, an
+integer zoom ratio, …) the `zoom_shift` model at order 1 returns the input sample at the position the border rule
+assigns to `js` (`specPos`), or `cval`; axes of length 1 included. Generalises `C18_integer_shift_exact` (shifts only)
+to every coordinate map. -/
+theorem C18_order1_integer_coordinates {K : Type} [Field K] [LinearOrder K] [IsStrictOrderedRing K]
+    {fl : K → Int} (h : IsFloor fl) (m : Mode) (cval : K) (im : Img K) (hpos : ∀ len ∈ im.shape, 0 < len)
+    (shifts zooms : List (Option K)) (p js : List Int) (hl : js.length = im.shape.length)
+    (hc : coordsOf im.shape p shifts zooms = js.map fun (j : Int) => (j : K)) :
+    pixel fl 1 m cval im shifts zooms p
+      = match specPos m im.shape js with
+        | some js' => im.getD js' 0
+        | none => cval :=
+  pixel_border_of_core h 1 m cval im shifts zooms p js hpos hl hc (fun js' => im.getD js' 0)
+    (fun js' hin => core_order1 h im hpos js' hin)
+
+/-- non-vacuity of the border rule: on an axis of 4 samples the integer coordinate `−1` reads sample 1 in `mirror`
+mode, sample 0 in `nearest`, sample 3 in `wrap`, and is flagged in `constant` mode; coordinate 5 reads sample 2 in
+`reflect` mode -/
+example : specPos .mirror [4] [-1] = some [1] ∧ specPos .nearest [4] [-1] = some [0] ∧
+    specPos .wrap [4] [-1] = some [3] ∧ specPos .constant [4] [-1] = none ∧ specPos .reflect [4] [5] = some [2] := by
+  decide
+
+/-- **C18 (corners of `zoom`, any rank).** For every input shape and requested output shape of the same rank and every
+**corner** `p` of the output box (every index 0, or `n_out − 1` on an axis with at least two output samples —
+`IsCorner`), the full coordinate vector `zoom` maps `p` to is the corresponding corner of the input box (`cornerSrc`:
+0 ↦ 0, `n_out − 1 ↦ n_in − 1` on every axis), which lies inside the array; hence the entry of `zoom`'s result
+(`zoomGlue`, also what `resize_to` / `imresize` / `resize_rgb_to` return per channel) at `p` is
+* order 1: the input sample at that corner (no hypothesis);
+* orders 2, 3: `f` at that corner when the coefficients are the one-pole prefilter of `f`
+  (hypotheses of `C18_interpolation_property`);
+* orders 4, 5: likewise with the two-pole prefilter (hypotheses of `C18_interpolation_property_order4_5`).
+Corner samples go to corner samples, in every rank and for every mode. -/
+theorem C18_zoom_corners {K : Type} [Field K] [LinearOrder K] [IsStrictOrderedRing K]
+    {fl : K → Int} (h : IsFloor fl) (m : Mode) (cval : K) (im : Img K) (oshape : List Nat) (p : List Int)
+    (hrank : im.shape.length = oshape.length) (hcorner : IsCorner oshape p)
+    (hpos : ∀ len ∈ im.shape, 0 < len) (hopos : ∀ n ∈ oshape, 0 < n) :
+    coordsOf im.shape p (oshape.map fun _ => (none : Option K))
+        ((im.shape.zip oshape).map fun io => some (zoomFactor io.1 io.2 : K))
+      = (cornerSrc im.shape p).map (fun (j : Int) => (j : K)) ∧
+    inside im.shape (cornerSrc im.shape p) = true ∧
+    (zoomGlue fl 1 m cval im oshape).getD p 0 = im.getD (cornerSrc im.shape p) 0 ∧
+    (∀ (order : Nat) (lam z : K) (ini : Nat → (Nat → K) → K) (f : List Int → K),
+      ((order = 2 ∧ lam = 6) ∨ (order = 3 ∧ lam = 4)) → z * z + lam * z + 1 = 0 → z * z - 1 ≠ 0 →
+      (∀ len ∈ im.shape, 2 ≤ len) → (∀ len ∈ im.shape, ∀ s : Nat → K, MirrorInit z len s (ini len s)) →
+      (∀ pos, inside im.shape pos = true →
+        im.getD pos 0 = prefilterNd (lineFilter1 z (2 + lam) ini) im.shape f pos) →
+      (zoomGlue fl order m cval im oshape).getD p 0 = f (cornerSrc im.shape p)) ∧
+    (∀ (order : Nat) (z1 z2 l1 l2 w : K) (ini : K → Nat → (Nat → K) → K) (f : List Int → K),
+      ((order = 4 ∧ l1 + l2 = 76 ∧ l1 * l2 = 228 ∧ w = 384) ∨ (order = 5 ∧ l1 + l2 = 26 ∧ l1 * l2 = 64 ∧ w = 120)) →
+      z1 * z1 + l1 * z1 + 1 = 0 → z2 * z2 + l2 * z2 + 1 = 0 → z1 * z1 - 1 ≠ 0 → z2 * z2 - 1 ≠ 0 →
+      (∀ len ∈ im.shape, 4 ≤ len) →
+      (∀ len ∈ im.shape, ∀ z, z = z1 ∨ z = z2 → ∀ s : Nat → K, MirrorInit z len s (ini z len s)) →
+      (∀ pos, inside im.shape pos = true →
+        im.getD pos 0 = prefilterNd (lineFilterL w [z1, z2] ini) im.shape f pos) →
+      (zoomGlue fl order m cval im oshape).getD p 0 = f (cornerSrc im.shape p)) := by
+  have hc := coordsOf_corner (K := K) im.shape oshape p hrank hcorner
+  have hin := cornerSrc_inside im.shape oshape p hrank hcorner hpos
+  have hpin := isCorner_inside oshape p hcorner hopos
+  have hget : ∀ order, (zoomGlue fl order m cval im oshape).getD p 0
+      = pixel fl order m cval im (oshape.map fun _ => none)
+          ((im.shape.zip oshape).map fun io => some (zoomFactor io.1 io.2)) p := by
+    intro order
+    unfold zoomGlue zoomShift
+    exact tabulate_getD' _ _ _ _ hpin
+  refine ⟨hc, hin, ?_, ?_, ?_⟩
+  · rw [hget, pixel_at_integer fl 1 m cval im _ _ p _ hpos hin hc (fun pos => im.getD pos 0) (fun _ _ => rfl)]
+    exact core_order1 h im hpos _ hin
+  · intro order lam z ini f hord hz hz1 hshape hini hdata
+    rw [hget]
+    exact C18_interpolation_property h m cval order lam z hord hz hz1 ini im hshape hini f hdata _ _ p _ hin hc
+  · intro order z1 z2 l1 l2 w ini f hord h1 h2 hz1 hz2 hshape hini hdata
+    rw [hget]
+    exact (C18_interpolation_property_order4_5 h m cval order z1 z2 l1 l2 w hord h1 h2 hz1 hz2 ini im hshape hini f
+      hdata _ _ p _ hin hc).2
+
+/-- non-vacuity: `(2, 0)` is a corner of a `3 × 2` output box and corresponds to the corner `(4, 0)` of a `5 × 7`
+input box -/
+example : IsCorner [3, 2] [2, 0] ∧ cornerSrc [5, 7] [2, 0] = [4, 0] := by
+  constructor
+  · simp [IsCorner]
+  · rfl
+
+/-- **C18 (the output shape of `zoom` / `imresize` by factor).** `zoomOutShape` is `interpolate.zoom`'s
+`output_shape = tuple([int(s * z) for s, z in zip(array.shape, zoom)])` (`int` truncates toward zero: `truncI`; Python's
+`round` is **not** involved) after the length check; `none` = the call raises. Over an ordered field with a floor
+function, for every shape:
+(1) a factor vector of the wrong length raises; (2) non-negative factors never raise; (3) a successful call returns one
+length per axis, each `int(s_r · z_r)`; (4) for `z ≥ 0` that length is `⌊s·z⌋`: `len ≤ s·z < len + 1`; (5) it is
+monotone in the factor; (6) the factor 1 (broadcast to every axis) asks for the input's own shape; (7) natural factors
+`k_r` ask for the exact multiples `s_r·k_r`; (8) `zoomByFactor` (hence `imresizeFactor`) returns `zoom`'s result onto
+exactly that shape — everything proved about `zoomGlue` (coordinate map, corners, interpolation) applies. -/
+theorem C18_zoom_output_shape {K : Type} [Field K] [LinearOrder K] [IsStrictOrderedRing K]
+    {fl : K → Int} (h : IsFloor fl) (shape : List Nat) :
+    (∀ zs : List K, zs.length ≠ shape.length → zoomOutShape fl shape zs = none) ∧
+    (∀ zs : List K, zs.length = shape.length → (∀ z ∈ zs, 0 ≤ z) → ∃ os, zoomOutShape fl shape zs = some os) ∧
+    (∀ (zs : List K) (os : List Nat), zoomOutShape fl shape zs = some os →
+      os.length = shape.length ∧ os.map (fun (o : Nat) => (o : Int)) = List.zipWith (zoomOutLen fl) shape zs) ∧
+    (∀ (s : Nat) (z : K), 0 ≤ z →
+      0 ≤ zoomOutLen fl s z ∧ ((zoomOutLen fl s z : Int) : K) ≤ (s : K) * z ∧
+        (s : K) * z < ((zoomOutLen fl s z : Int) : K) + 1) ∧
+    (∀ (s : Nat) (z z' : K), z ≤ z' → zoomOutLen fl s z ≤ zoomOutLen fl s z') ∧
+    zoomOutShape fl shape (zoomFactors shape.length true [(1 : K)]) = some shape ∧
+    (∀ ks : List Nat, ks.length = shape.length →
+      zoomOutShape fl shape (ks.map fun (k : Nat) => (k : K)) = some (List.zipWith (· * ·) shape ks)) ∧
+    (∀ (pre : Img K → Img K) (order : Nat) (m : Mode) (cval : K) (im : Img K) (scalar : Bool) (zs : List K)
+      (r : Img K), zoomByFactor fl pre order m cval im scalar zs = some r →
+        ∃ os, zoomOutShape fl im.shape (zoomFactors im.shape.length scalar zs) = some os ∧
+          r = zoomGlue fl order m cval (pre im) os ∧ r.shape = os) := by
+  refine ⟨fun zs hl => zoomOutShape_length_ne fl shape zs hl, fun zs hl hz => zoomOutShape_nonneg h shape zs hl hz,
+    fun zs os hs => (zoomOutShape_some fl shape zs os hs).2, ?_, fun s z z' hz => zoomOutLen_mono h s z z' hz,
+    ?_, fun ks hl => zoomOutShape_nat h shape ks hl, ?_⟩
+  · intro s z hz
+    exact (truncI_bounds h ((s : K) * z)).1 (mul_nonneg (Nat.cast_nonneg s) hz)
+  · simp only [zoomFactors, if_true]
+    exact zoomOutShape_unit h shape
+  · intro pre order m cval im scalar zs r hr
+    unfold zoomByFactor at hr
+    cases hs : zoomOutShape fl im.shape (zoomFactors im.shape.length scalar zs) with
+    | none => rw [hs] at hr; cases hr
+    | some os =>
+      rw [hs] at hr
+      simp only [Option.some.injEq] at hr
+      subst hr
+      exact ⟨os, rfl, rfl, rfl⟩
+
+/-- non-vacuity: over ℚ with the true floor, a `3 × 4` array zoomed by `(3/2, 1/2)` gets the shape `(4, 2)`, by `−1/2`
+the call raises, and the length 49 with the factor `1/49` gives 1 over ℚ (the double product `49·(1/49)` is below 1:
+the defect `5b53411` of `imresize` was a floating-point effect) -/
+example : zoomOutShape (fun z : ℚ => ⌊z⌋) [3, 4] [3 / 2, 1 / 2] = some [4, 2] ∧
+    zoomOutShape (fun z : ℚ => ⌊z⌋) [3] [-1 / 2] = none ∧
+    zoomOutShape (fun z : ℚ => ⌊z⌋) [49] [1 / 49] = some [1] := by
+  have fl0 : ∀ (q : ℚ) (n : Int), (n : ℚ) ≤ q → q < (n : ℚ) + 1 → ⌊q⌋ = n := fun q n h0 h1 => by
+    rw [Int.floor_eq_iff]; exact ⟨h0, h1⟩
+  have l1 : zoomOutLen (fun z : ℚ => ⌊z⌋) 3 (3 / 2) = 4 := by
+    unfold zoomOutLen
+    rw [truncI_nonneg _ _ (by norm_num)]
+    exact fl0 _ 4 (by norm_num) (by norm_num)
+  have l2 : zoomOutLen (fun z : ℚ => ⌊z⌋) 4 (1 / 2) = 2 := by
+    unfold zoomOutLen
+    rw [truncI_nonneg _ _ (by norm_num)]
+    exact fl0 _ 2 (by norm_num) (by norm_num)
+  have l3 : zoomOutLen (fun z : ℚ => ⌊z⌋) 3 (-1 / 2) = -1 := by
+    unfold zoomOutLen
+    rw [truncI_neg _ _ (by norm_num)]
+    have : ⌊-(((3 : Nat) : ℚ) * (-1 / 2))⌋ = 1 := fl0 _ 1 (by norm_num) (by norm_num)
+    simp only [this]
+  have l4 : zoomOutLen (fun z : ℚ => ⌊z⌋) 49 (1 / 49) = 1 := by
+    unfold zoomOutLen
+    rw [truncI_nonneg _ _ (by norm_num)]
+    exact fl0 _ 1 (by norm_num) (by norm_num)
+  refine ⟨?_, ?_, ?_⟩
+  · simp only [zoomOutShape, l1, l2]; decide
+  · simp only [zoomOutShape, l3]; decide
+  · simp only [zoomOutShape, l4]; decide
+
+/-- **C18 (integer images: the stored value is the interpolated value truncated toward zero).** `resize_to` on an
+image of an integer dtype (`resizeToDT`: `out = np.empty(nsize, dtype=im.dtype)`, `zoom` in `float64`, then
+`o_out[:] = out[:]`) raises exactly when `resize_to` does, returns exactly the requested shape, and every stored entry
+is `castToInt` of the `float64` entry of `resize_to`'s result: (1) an integer value inside the dtype's range is stored
+unchanged — with the interpolation theorems: corners, unit zoom and integer ratios are exact over a field; (2) any
+other value `v` is replaced by the integer between 0 and `v` less than one away from it (`int(v)`), so the statement's
+"reproduces the samples" holds on integer images only up to that truncation — in floating point a corner value
+`2.9999999999999996` is stored as 2 (observed; integer arrays are outside the statement's quantifier). -/
+theorem C18_integer_dtype_truncation {K : Type} [Field K] [LinearOrder K] [IsStrictOrderedRing K]
+    {fl : K → Int} (h : IsFloor fl) (pre : Img K → Img K) (order : Nat) (dt : DT) (im : Img K)
+    (nsize : List Nat) :
+    (resizeToDT fl pre order dt im nsize = none ↔ nsize.length ≠ im.shape.length) ∧
+    (∀ r, resizeToDT fl pre order dt im nsize = some r →
+      r.shape = nsize ∧
+      r.data = (zoomGlue fl order .constant 0 (pre im) nsize).data.map (castToInt fl dt)) ∧
+    (∀ n : Int, dt.lo ≤ n → n ≤ dt.hi → castToInt fl dt (n : K) = some n) ∧
+    (∀ (v : K) (t : Int), castToInt fl dt v = some t →
+      dt.lo ≤ t ∧ t ≤ dt.hi ∧
+      (0 ≤ v → 0 ≤ t ∧ (t : K) ≤ v ∧ v < (t : K) + 1) ∧ (v ≤ 0 → t ≤ 0 ∧ v ≤ (t : K) ∧ (t : K) - 1 < v)) := by
+  refine ⟨?_, ?_, fun n hlo hhi => castToInt_int h dt n hlo hhi, ?_⟩
+  · unfold resizeToDT
+    by_cases hl : nsize.length = im.shape.length
+    · rw [resizeTo_some fl pre order im nsize hl]; simp [hl]
+    · rw [resizeTo_none fl pre order im nsize hl]; simp [hl]
+  · intro r hr
+    unfold resizeToDT at hr
+    by_cases hl : nsize.length = im.shape.length
+    · rw [resizeTo_some fl pre order im nsize hl] at hr
+      simp only [Option.some.injEq] at hr
+      subst hr
+      exact ⟨rfl, rfl⟩
+    · rw [resizeTo_none fl pre order im nsize hl] at hr
+      cases hr
+  · intro v t hc
+    obtain ⟨rfl, hlo, hhi⟩ := castToInt_some fl dt v t hc
+    exact ⟨hlo, hhi, (truncI_bounds h v).1, (truncI_bounds h v).2⟩
+
+/-- non-vacuity: over ℚ, `uint8`: `5/2` is stored as 2, `−1/3` as 0, 255 as 255, and `256` is outside the range -/
+example : castToInt (fun z : ℚ => ⌊z⌋) (dtU 8) (5 / 2) = some 2 ∧ castToInt (fun z : ℚ => ⌊z⌋) (dtU 8) (-1 / 3) = some 0 ∧
+    castToInt (fun z : ℚ => ⌊z⌋) (dtU 8) 255 = some 255 ∧ castToInt (fun z : ℚ => ⌊z⌋) (dtU 8) 256 = none := by
+  have fl0 : ∀ (q : ℚ) (n : Int), (n : ℚ) ≤ q → q < (n : ℚ) + 1 → ⌊q⌋ = n := fun q n h0 h1 => by
+    rw [Int.floor_eq_iff]; exact ⟨h0, h1⟩
+  have t1 : truncI (fun z : ℚ => ⌊z⌋) (5 / 2) = 2 := by
+    rw [truncI_nonneg _ _ (by norm_num)]; exact fl0 _ 2 (by norm_num) (by norm_num)
+  have t2 : truncI (fun z : ℚ => ⌊z⌋) (-1 / 3) = 0 := by
+    rw [truncI_neg _ _ (by norm_num)]
+    have : ⌊-(-1 / 3 : ℚ)⌋ = 0 := fl0 _ 0 (by norm_num) (by norm_num)
+    simp only [this]; rfl
+  have t3 : truncI (fun z : ℚ => ⌊z⌋) 255 = 255 := by
+    rw [truncI_nonneg _ _ (by norm_num)]; exact fl0 _ 255 (by norm_num) (by norm_num)
+  have t4 : truncI (fun z : ℚ => ⌊z⌋) 256 = 256 := by
+    rw [truncI_nonneg _ _ (by norm_num)]; exact fl0 _ 256 (by norm_num) (by norm_num)
+  refine ⟨?_, ?_, ?_, ?_⟩
+  · simp only [castToInt, t1]; decide
+  · simp only [castToInt, t2]; decide
+  · simp only [castToInt, t3]; decide
+  · simp only [castToInt, t4]; decide
